@@ -159,6 +159,12 @@ class Scenario:
         except Exception:
             pass
         vloop.uninstall(self.loop)
+        try:        # from_textfile keeps its file open for the life of the source
+            f = getattr(self.src, "file", None)
+            if f is not None:
+                f.close()
+        except Exception:
+            pass
         if self.tmp:
             try:
                 self.wfile.close()
